@@ -107,6 +107,12 @@ def charset(items) -> Optional[Set[str]]:
                 out |= set("abcdefghijklmnopqrstuvwxyzABCDEFGHIJKLMNOPQRSTUVWXYZ0123456789_")
             elif av is sre_c.CATEGORY_SPACE:
                 out |= set(" \t\n\r\f\v")
+            elif av is sre_c.CATEGORY_NOT_SPACE:
+                out |= {chr(c) for c in range(128)} - set(" \t\n\r\f\v")
+            elif av is sre_c.CATEGORY_NOT_DIGIT:
+                out |= {chr(c) for c in range(128)} - set("0123456789")
+            elif av is sre_c.CATEGORY_NOT_WORD:
+                out |= {chr(c) for c in range(128)} - set("abcdefghijklmnopqrstuvwxyzABCDEFGHIJKLMNOPQRSTUVWXYZ0123456789_")
             else:
                 return None
         else:
